@@ -2,7 +2,7 @@
    Statements only (copied from the lemma libraries); every proof is a bare
    `exact`; see the cited files in coq/proofs for the proofs. *)
 From Coq Require Import List NArith ZArith Bool Arith Sorting.Sorted Sorting.Permutation.
-From D2P Require Import Str Err Xml TableTypes Tables Fmt Bullets Merge Collector Walk Paths Package Content ShapeFacts TokFacts FrameFacts BulletsFacts GridFacts OptionFacts ProjFacts.
+From D2P Require Import Str Err Xml TableTypes Tables Fmt Bullets Merge Collector Walk Paths Package Content ShapeFacts TokFacts FrameFacts BulletsFacts GridFacts OptionFacts ProjFacts Fs FsFacts.
 Import ListNotations.
 Local Open Scope nat_scope.
 
@@ -79,3 +79,17 @@ Theorem C19_plain_succeeds_when_html_does :
   collect_from v path t = Ok s -> exists sp, collect_from (plain_env v) path t = Ok sp.
 Proof. exact plain_succeeds. Qed.
 Print Assumptions C19_plain_succeeds_when_html_does.
+
+(* PASSING AN IMAGE FOLDER CHANGES NOTHING IN THE RETURNED VALUES: the mapping returned by save_images / pull_image_files is Content.images of the archive, whatever the folder and whatever the file system holds *)
+Theorem C19_image_folder_changes_nothing :
+  forall images folder fs r fs',
+  pull_image_files images folder fs = Ok (r, fs') -> images = Ok r.
+Proof. exact pull_returns_images. Qed.
+Print Assumptions C19_image_folder_changes_nothing.
+
+(* stated as an equation between any two folders and file systems *)
+Theorem C19_image_folder_irrelevant :
+  forall images f1 f2 fs1 fs2,
+  (r <- pull_image_files images f1 fs1 ;; Ok (fst r)) = (r <- pull_image_files images f2 fs2 ;; Ok (fst r)).
+Proof. exact pull_folder_irrelevant. Qed.
+Print Assumptions C19_image_folder_irrelevant.
